@@ -27,13 +27,15 @@ from ..fin import fm, T, D, err_class
 
 ID = "C19"
 COQ_IMPORTS = "From FV Require Import Base Validate."
-COQ_CHECK = "c19_check"
-COQ_MODEL_OBS = "c19_model"
+COQ_CHECK = "c19_check2"
+COQ_MODEL_OBS = "c19_model2"
 RULE = (
     "exhaustive sweep of a family of small topologies (2 composition components + 1 outsider, chains of 0-3 "
     "adapters over 10 adapter kinds, fan-out at every position, static flags, callback inputs/outputs, missing "
     "sides, dangling adapters; plus a listing-order family: producer-first / consumer-first x fan-out at every "
     "position x dead-end adapter sub-chains of length 1-3 incl. nested ones; both sub-sampled in the quick tier) "
+    "+ a two-step family (a first connect() on a partial wiring, then the remaining links - every single link / pair of "
+    "links of chains with fan-outs - are added and connect() is called again on the same Composition) "
     "+ random forests (up to 4 roots, depth <= 5, "
     "fan-out <= 3); non-trivial = at least one adapter and (a defect or a fan-out); distinct by canonical case hash"
 )
@@ -49,6 +51,8 @@ ASSUMPTIONS = [
     "a chain (for the dead-link defect) is a complete path output -> adapters -> input; a dead-end adapter branch "
     "without a consuming input is not a chain",
     "created links (for the link-list statement) are those of the link trees that contain a slot of a composition component",
+    "several connect() attempts: between attempts links are only added (there is no public way to remove one); a second "
+    "attempt is made only when the first one was rejected by the validation or succeeded completely",
 ]
 CASE_TIMEOUT = 30
 
@@ -455,10 +459,16 @@ def run_impl(case):
             return connect
         c.connect = mk(c, c.connect)
 
-    obs = {}
-    try:
-        for k, n in enumerate(_CHECKS):
-            setattr(sched, n, proxy(k, n))
+    names = {}
+    for c, comp in enumerate(comps):
+        names[f"{comp.name}@{id(comp)}"] = c
+    for k, x in enumerate(outs):
+        names[f"{x.name}@{id(x)}"] = -k - 1
+    anames = {f"{a.name}@{id(a)}": k for k, a in enumerate(adas)}
+
+    def attempt():
+        obs = {}
+        del log[:]
         # (a) the validation method alone
         try:
             compo._validate_composition()
@@ -474,30 +484,35 @@ def run_impl(case):
         except Exception as e:  # noqa
             obs["connect"] = err_class(e)
         obs["connect_events"] = list(log)
+        obs["links"] = None
+        if obs["connect"] == "ok":
+            links = []
+            try:
+                reported = compo.metadata["links"]
+            except Exception as e:  # noqa
+                obs["metadata_error"] = err_class(e)
+                return obs
+            for l in reported:
+                fr, to = l["from"], l["to"]
+                s = ["a", anames[fr["adapter"]]] if "adapter" in fr else ["o", names[fr["component"]], int(fr["output"][1:])]
+                d = ["a", anames[to["adapter"]]] if "adapter" in to else ["i", names[to["component"]], int(to["input"][1:])]
+                links.append([s, d])
+            obs["links"] = sorted(links)
+        return obs
+
+    try:
+        for k, n in enumerate(_CHECKS):
+            setattr(sched, n, proxy(k, n))
+        obs = attempt()
+        # a second attempt on the same Composition object after the wiring was extended: only when the first one
+        # was rejected by the validation (nothing has happened to the components) or succeeded completely
+        if case.get("late_links") and (["raised"] in obs["connect_events"] or obs["connect"] == "ok"):
+            for s, d in case["late_links"]:
+                slot(s) >> slot(d)
+            obs["retry"] = attempt()
     finally:
         for n in _CHECKS:
             setattr(sched, n, real[n])
-
-    obs["links"] = None
-    if obs["connect"] == "ok":
-        names = {}
-        for c, comp in enumerate(comps):
-            names[f"{comp.name}@{id(comp)}"] = c
-        for k, x in enumerate(outs):
-            names[f"{x.name}@{id(x)}"] = -k - 1
-        anames = {f"{a.name}@{id(a)}": k for k, a in enumerate(adas)}
-        links = []
-        try:
-            reported = compo.metadata["links"]
-        except Exception as e:  # noqa
-            obs["metadata_error"] = err_class(e)
-            return obs
-        for l in reported:
-            fr, to = l["from"], l["to"]
-            s = ["a", anames[fr["adapter"]]] if "adapter" in fr else ["o", names[fr["component"]], int(fr["output"][1:])]
-            d = ["a", anames[to["adapter"]]] if "adapter" in to else ["i", names[to["component"]], int(to["input"][1:])]
-            links.append([s, d])
-        obs["links"] = sorted(links)
     return obs
 
 
@@ -535,7 +550,19 @@ def _coq_tree(case, ch, node):
     return C("Node", C("mkA", N(node[1]), B(f[0]), B(f[1]), B(f[2])), L(_coq_tree(case, ch, d) for d in ch.get(node, [])))
 
 
+def _full(case):
+    """the wiring after the late links were added"""
+    c = {k: v for k, v in case.items() if k != "late_links"}
+    c["links"] = list(case["links"]) + list(case.get("late_links") or [])
+    return c
+
+
 def coq_case(case, obs):
+    t2 = Some(_coq_topo(_full(case))) if case.get("late_links") else "(@None topo)"
+    return P(_coq_topo(case), t2)
+
+
+def _coq_topo(case):
     roots, ch = _forest(case)
     sizes = L(P(N(len(s["ins"])), N(len(s["outs"]))) for s in case["comps"])
     rts = []
@@ -571,10 +598,17 @@ def _coq_link(l):
 
 
 def coq_obs(case, obs):
+    r = obs.get("retry")
+    return P(_coq_obs1(obs), "(@None c19_obs)" if r is None else Some(_coq_obs1(r)))
+
+
+def _coq_obs1(obs):
     cls = {"ok": "RDone", "ConnectError": "(RRaised ConnectError)", "StatusError": "(RRaised StatusError)"}
     v = cls.get(obs["validate"], "(RRaised OtherError)")
     # errors raised after the validation (later in connect) are outside the model: reported as RDone + no links
     after = obs["connect"] != "ok" and ["raised"] not in obs["connect_events"]
+    if obs["connect"] == "StatusError" and not obs["connect_events"]:
+        after = False  # "Composition was already connected": raised before anything else
     c = "RDone" if after else cls.get(obs["connect"], "(RRaised OtherError)")
     links = NONE if obs["links"] is None else Some(L(_coq_link(l) for l in obs["links"]))
     return C("mkObs", v, _coq_events(obs["validate_events"]), c, _coq_events(_prefix(obs["connect_events"])), links)
@@ -584,6 +618,19 @@ def coq_obs(case, obs):
 # monitor
 # ----------------------------------------------------------------------------
 def monitor(case, obs):
+    f = _monitor1(case, obs)
+    if f or "retry" not in obs:
+        return f
+    r = obs["retry"]
+    if obs["connect"] == "ok":
+        if r["connect"] != "StatusError" or r["connect_events"]:
+            return f"connect() of an already connected composition: {r['connect']} after events {r['connect_events'][:3]}"
+        return None
+    f = _monitor1(_full(case), r)
+    return ("second connect() after a rejected attempt and an extended wiring: " + f) if f else None
+
+
+def _monitor1(case, obs):
     d = defects(case)
     v_err = obs["validate"] != "ok"
     raised_in_validation = ["raised"] in obs["connect_events"]
@@ -619,6 +666,7 @@ def monitor(case, obs):
 def nontrivial(case, obs):
     if not case["adapters"]:
         return False
+    case = _full(case)
     _, ch = _forest(case)
     fan = any(len(v) > 1 for v in ch.values())
     return bool(defects(case)) or fan
@@ -680,6 +728,8 @@ def _swap01(case):
 
     c = copy.deepcopy(case)
     c["comps"][0], c["comps"][1] = c["comps"][1], c["comps"][0]
+    if "late_links" in c:
+        c["late_links"] = [[list(a), list(b)] for a, b in c["late_links"]]
 
     def sw(e):
         e = list(e)  # fresh list: the endpoints of several links may be one shared object
@@ -688,6 +738,8 @@ def _swap01(case):
         return e
 
     c["links"] = [[sw(a), sw(b)] for a, b in c["links"]]
+    if "late_links" in c:
+        c["late_links"] = [[sw(a), sw(b)] for a, b in c["late_links"]]
     return c
 
 
@@ -812,6 +864,47 @@ def _rand_case(rng, deep):
     return case
 
 
+def _defer(case, idxs):
+    """the same wiring built in two steps: the links at positions idxs are added only after a first connect()"""
+    import copy
+
+    c = copy.deepcopy(case)
+    idxs = sorted(set(idxs))
+    c["late_links"] = [c["links"][i] for i in idxs]
+    c["links"] = [l for i, l in enumerate(c["links"]) if i not in idxs]
+    return c
+
+
+_RETRY_KINDS = ["scale", "delay", "linear", "hnb", "hpush"]
+
+
+def _retry_sweep():
+    """two-step family: chains of 1-2 adapters, fan-out at every position, both listing orders, plain / callback
+    consumer; every single link and every pair of links is added only after a first connect() (about 3k cases)"""
+    for n in (1, 2):
+        for chain in itertools.product(_RETRY_KINDS, repeat=n):
+            for ik in ("plain", "cb"):
+                for fan in [None] + list(range(n + 1)):
+                    base = _chain_case(ik, False, "push", False, chain, fan, "comp", "comp")
+                    nl = len(base["links"])
+                    sets = [[i] for i in range(nl)] + [[i, j] for i in range(nl) for j in range(i + 1, nl)]
+                    for k, idxs in enumerate(sets):
+                        c = _defer(base, idxs)
+                        yield c if k % 2 == 0 else _swap01(c)
+                        if n == 1:
+                            yield _swap01(c) if k % 2 == 0 else c
+
+
+def _rand_retry_case(rng, deep):
+    """a random mostly valid wiring, 1-3 of its links added after the first connect()"""
+    for _ in range(20):
+        c = _rand_case(rng, deep)
+        if c["links"] and c["adapters"] and (not defects(c) or rng.random() < 0.15):
+            break
+    k = min(len(c["links"]), rng.choice([1, 1, 2, 3]))
+    return _defer(c, rng.sample(range(len(c["links"])), k))
+
+
 def _c(comps, outsiders, adapters, links):
     return {"comps": comps, "outsiders": outsiders, "adapters": adapters, "links": links}
 
@@ -860,6 +953,23 @@ CORPUS = [
        ["scale", "delay", "scale", "hnb", "scale"],
        [[["o", 1, 0], ["a", 0]], [["a", 0], ["a", 1]], [["a", 1], ["a", 2]], [["a", 1], ["a", 3]], [["a", 3], ["a", 4]],
         [["a", 0], ["i", 0, 0]]]),
+    # seeded change C19_m: a connect() rejected for an unlinked input, then the input is linked through adapters and
+    # connect() is called again on the same Composition (gen.O0 >> cons.I0 first; later gen.O0 >> Scale >> cons.I1)
+    {**_c([{"ins": [], "outs": [["push", False]]}, {"ins": [["plain", False], ["plain", False]], "outs": []}], _X, ["scale"],
+          [[["o", 0, 0], ["i", 1, 0]]]),
+     "late_links": [[["o", 0, 0], ["a", 0]], [["a", 0], ["i", 1, 1]]]},
+    # ... first attempt already knows an adapter; the repair hangs Scale >> Scale below it
+    {**_c([{"ins": [], "outs": [["push", False]]}, {"ins": [["plain", False], ["plain", False]], "outs": []}], _X,
+          ["scale", "scale", "scale"], [[["o", 0, 0], ["a", 0]], [["a", 0], ["i", 1, 0]]]),
+     "late_links": [[["a", 0], ["a", 1]], [["a", 1], ["a", 2]], [["a", 2], ["i", 1, 1]]]},
+    # ... the adapter chain exists before the first attempt (source-less), only the link to the output comes late
+    {**_c([{"ins": [["plain", False]], "outs": []}, {"ins": [], "outs": [["push", False]]}], _X, ["delay", "hnb"],
+          [[["a", 0], ["a", 1]], [["a", 1], ["i", 0, 0]]]),
+     "late_links": [[["o", 1, 0], ["a", 0]]]},
+    # a second connect() after a successful one (late link: a dead-end adapter) is refused with a status error
+    {**_c([{"ins": [], "outs": [["push", False]]}, {"ins": [["plain", False]], "outs": []}], _X, ["scale"],
+          [[["o", 0, 0], ["i", 1, 0]]]),
+     "late_links": [[["o", 0, 0], ["a", 0]]]},
     # a link between outsiders only is invisible to the composition
     _c([{"ins": [], "outs": [["push", False]]}], [{"ins": [["plain", False]], "outs": [["push", False]]}], ["scale"],
        [[["o", -1, 0], ["a", 0]], [["a", 0], ["i", -1, 0]]]),
@@ -875,11 +985,15 @@ def generate(rng, tier):
         cases += small if len(small) <= 2500 else rng.sample(small, 2500)
         cases += rng.sample(big, 1500)
         cases += rng.sample(list(_dead_end_sweep()), 1500)
-        nrand = 2000
+        cases += rng.sample(list(_retry_sweep()), 700)
+        nrand, nretry = 2000, 300
     else:
         cases += sweep
         cases += list(_dead_end_sweep())
-        nrand = 40000
+        cases += list(_retry_sweep())
+        nrand, nretry = 40000, 6000
+    for i in range(nretry):
+        cases.append(_rand_retry_case(rng, deep=(i % 3 == 0)))
     for i in range(nrand):
         # mostly valid: two thirds of the random cases get up to three re-draws when they contain a defect
         deep = tier != "quick" or i % 4 == 0
@@ -908,12 +1022,17 @@ def distribution(cases, obss):
             "raising_check": dict(raising),
             "links_observed": sum(1 for o in obss if isinstance(o, dict) and o.get("links") is not None),
             "cases_with_dead_end_adapter": sum(1 for c in cases if has_dead_end(c)),
-            "metadata_errors": sum(1 for o in obss if isinstance(o, dict) and o.get("metadata_error"))}
+            "metadata_errors": sum(1 for o in obss if isinstance(o, dict) and o.get("metadata_error")),
+            "two_step_cases": sum(1 for c in cases if c.get("late_links")),
+            "second_attempt_results": dict(Counter(
+                f"{o['connect']} -> {o['retry']['connect']}" + (" (links observed)" if o["retry"].get("links") is not None else "")
+                for o in obss if isinstance(o, dict) and "retry" in o))}
 
 
 def extra_evidence(cases, obss):
     return {"exhaustive_family_size": sum(1 for _ in _sweep()),
             "dead_end_family_size": sum(1 for _ in _dead_end_sweep()),
+            "two_step_family_size": sum(1 for _ in _retry_sweep()),
             "exhaustive_family_note": "thorough tier runs the whole family; the quick tier a seeded sample of it",
             "post_validation_connect_errors": "topologies that pass the validation but fail later in connect (static outputs "
                                               "behind time/delay adapters, dead-end time adapters) are compared on the "
@@ -921,6 +1040,12 @@ def extra_evidence(cases, obss):
 
 
 def shrink_candidates(case):
+    late = case.get("late_links") or []
+    for i in range(len(late) - 1, -1, -1):
+        # drop a late link / make it an early one
+        yield {**case, "late_links": late[:i] + late[i + 1:]}
+        if len(late) > 1:
+            yield {**case, "links": case["links"] + [late[i]], "late_links": late[:i] + late[i + 1:]}
     links = case["links"]
     # drop a leaf link (a link whose destination is an input or a childless adapter)
     srcs = {tuple(s) for s, _ in links}
